@@ -10,6 +10,11 @@
 #include <ctype.h>
 #include <stdlib.h>
 
+static bool is_number_start(char c)
+{
+	return isdigit((unsigned char)c) || (((unsigned char)c) & 0x80) != 0;
+}
+
 static int parse(const gnu_old_sparse_t *in, size_t count,
 		 sparse_map_t **head, sparse_map_t **tail)
 {
@@ -17,8 +22,15 @@ static int parse(const gnu_old_sparse_t *in, size_t count,
 	sqfs_u64 off, sz;
 
 	while (count--) {
-		if (!isdigit(in->offset[0]) || !isdigit(in->numbytes[0]))
+		/*
+		  An unused entry ends the map. A number that needs more than
+		  11 octal digits (e.g. an offset beyond 8 GiB) is stored
+		  base-256 encoded, with the top bit of the first byte set.
+		 */
+		if (!is_number_start(in->offset[0]) ||
+		    !is_number_start(in->numbytes[0])) {
 			return 1;
+		}
 		if (read_number(in->offset, sizeof(in->offset), &off))
 			return -1;
 		if (read_number(in->numbytes, sizeof(in->numbytes), &sz))
